@@ -68,6 +68,8 @@ def work(tier, seed):
             items.append({"kind": "strata", "hp": hp_, "hn": hn_, "easy": [e, (e * 7) % 11]})
     for hp_, hn_ in ((1, 1), (2, 1), (1, 2)):
         items.append({"kind": "two_samples", "hp": hp_, "hn": hn_})
+    for part in range(8):
+        items.append({"kind": "proportion_sizes", "part": part, "parts": 8})
     for hp in b["switch_sizes"]:
         for hn in b["switch_sizes"]:
             for smoothing in (False, True):
@@ -234,6 +236,8 @@ def run(item, ctx, tier, seed):
         return _run_strata(item, ctx)
     if item["kind"] == "two_samples":
         return _run_two_samples(item, ctx)
+    if item["kind"] == "proportion_sizes":
+        return _run_proportion_sizes(item, ctx, tier)
 
     blocks = [tuple(x) for x in item["blocks"]]
     ep, en = item["easy"]
@@ -499,16 +503,23 @@ def _run_two_samples(item, ctx):
     neg = [0.25 * i for i in range(hn)]
     for ep, en in ((0, 0), (1, 0)):
         src = Scores(pos[::-1], neg[::-1], nb_easy_pos=ep, nb_easy_neg=en)
-        for method, strat in (("single_pass", "by_label"), ("single_pass", None), ("replacement", "by_label"), ("replacement", None)):
+        for method, strat in (("single_pass", "by_label"), ("single_pass", None), ("replacement", "by_label"), ("replacement", None),
+                              ("proportion>single_pass", "by_label"), ("proportion>replacement", "by_label")):
             if strat is None and hp + hn + ep + en > 3:
                 continue
+            if ">" in method:
+                first, method = method.split(">")
+            else:
+                first = method
+            cfg_first = BootstrapConfig(sampling_method=first, stratified_sampling=strat if first != "proportion" else None,
+                                        ratio=0.5 if first == "proportion" else None)
             cfgobj = BootstrapConfig(sampling_method=method, stratified_sampling=strat)
-            case = {"pos": pos, "neg": neg, "easy": [ep, en], "method": method, "stratified": strat,
-                    "history": ["s1 = bootstrap_sample()", "s2 = bootstrap_sample()", "inspect s1"]}
+            case = {"pos": pos, "neg": neg, "easy": [ep, en], "method": method, "first_method": first, "stratified": strat,
+                    "history": ["s1 = bootstrap_sample(first_method)", "s2 = bootstrap_sample(method)", "inspect s1 and s2"]}
             ctx.state()
 
             def fn(orc):
-                s1 = src.bootstrap_sample(cfgobj)
+                s1 = src.bootstrap_sample(cfg_first)
                 snap = _outcome(s1)
                 s2 = src.bootstrap_sample(cfgobj)
                 return s1, snap, s2
@@ -520,11 +531,39 @@ def _run_two_samples(item, ctx):
                 if _outcome(s1) != snap:
                     ctx.fail("earlier-sample-unchanged-by-later-sampling", c2, observed=_outcome(s1), expected=snap)
                     break
-                _wellformed(ctx, c2, src, s1, pos, neg, ep, en, ("pos", "pos"), method, strat, False)
+                if first == method:
+                    _wellformed(ctx, c2, src, s1, pos, neg, ep, en, ("pos", "pos"), method, strat, False)
                 _wellformed(ctx, c2, src, s2, pos, neg, ep, en, ("pos", "pos"), method, strat, False)
                 if (np.asarray(src.pos, dtype=float).tolist() != sorted(pos) or np.asarray(src.neg, dtype=float).tolist() != sorted(neg)
                         or src.nb_easy_pos != ep or src.nb_easy_neg != en):
                     ctx.fail("source-unchanged-by-sampling", c2, observed=[src.pos, src.neg], expected=[pos, neg])
                     break
     ctx.sample({"kind": "two_samples", "hard": [hp, hn]})
+    return None
+
+
+def _run_proportion_sizes(item, ctx, tier):
+    """Proportion sampling draws max(int(ratio*n), 1) scores and int(ratio*easy) easy samples for every size n."""
+    from score_analysis import BootstrapConfig, Scores
+
+    ratios = [r / 100.0 for r in range(1, 100)] if tier == "thorough" else [0.03, 0.12, 0.15, 0.25, 0.3, 0.34, 0.5, 0.6, 0.7, 0.75,
+                                                                           0.9, 0.97, 0.99]
+    sizes = list(range(1, 201)) if tier == "thorough" else list(range(1, 41)) + [50, 100, 200]
+    combos = [(r, n) for r in ratios for n in sizes][item["part"]::item["parts"]]
+    for ratio, n in combos:
+        pos = [float(i) for i in range(n)]
+        neg = [float(i) + 0.5 for i in range(max(1, n // 2))]
+        ep, en = n, 40
+        src = Scores(pos, neg, nb_easy_pos=ep, nb_easy_neg=en)
+        cfgobj = BootstrapConfig(sampling_method="proportion", ratio=ratio)
+        case = {"n_pos": n, "n_neg": len(neg), "easy": [ep, en], "ratio": ratio, "answers": "all-default (first k of the population)"}
+        ctx.state()
+        orc = rngtree.Oracle((), 100000)
+        with rngtree.owned(orc):
+            smp = src.bootstrap_sample(cfgobj)
+        ctx.tick()
+        if abs(ratio * n - round(ratio * n)) < 1e-9:
+            ctx.nontrivial()
+        _wellformed(ctx, case, src, smp, pos, neg, ep, en, ("pos", "pos"), "proportion", None, False, ratio)
+    ctx.sample({"kind": "proportion_sizes", "ratios": len(ratios), "sizes": len(sizes)})
     return None
